@@ -1,6 +1,7 @@
 package props
 
 import (
+	"crypto/sha256"
 	"encoding/base64"
 	"encoding/json"
 
@@ -470,17 +471,25 @@ func (g *G) genDidTx() *world.TxStep {
 // genDidGenesis draws a did genesis section that passes the module's genesis validation and
 // in which several map keys may carry documents about the SAME identifier (the validation
 // does not tie the key to the document id), plus tombstones.
-func (g *G) genDidGenesis(cdc codec.JSONCodec, keys []world.DIDKey) json.RawMessage {
+func (g *G) genDidGenesis(cdc codec.JSONCodec, keys []world.DIDKey, consistent ...bool) json.RawMessage {
 	gs := &didtypes.GenesisState{Documents: map[string]*didtypes.DIDDocumentWithSeq{}}
 	var dids []string
 	for _, k := range keys {
 		dids = append(dids, k.DID())
 	}
 	n := 2 + g.intn("gen-dids", 5)
+	if g.chance("gen-big-registry", 30) {
+		// more entries than any page or batch size an export might use
+		n = 33 + g.intn("gen-big-n", 40)
+		for i := 0; i < n+8; i++ {
+			h := sha256.Sum256([]byte(fmt.Sprintf("generated-did-%d", i)))
+			dids = append(dids, "did:panacea:"+base58.Encode(h[:]))
+		}
+	}
 	for i := 0; i < n; i++ {
 		key := pick(g, "gen-did-key", dids)
 		about := key
-		if g.chance("gen-doc-about-other", 45) {
+		if len(consistent) == 0 && g.chance("gen-doc-about-other", 45) {
 			about = pick(g, "gen-doc-about", dids)
 		}
 		if g.chance("gen-tombstone", 15) {
